@@ -555,7 +555,12 @@ func (h *harness) buildNode() {
 		}
 		h.log.add("save", "", height, fmt.Sprintf("canonical=%v", ok))
 		if !ok {
-			h.liveFinding("v0-noncanonical-block-saved", fmt.Sprintf("the syncing node wrote block meta for height %d with block id hash %X, which is not the canonical block of that height", height, pbm.BlockID.Hash))
+			if sc.Class == "signed" {
+				// (own key: the block carries a genuine +2/3 commit, what is missing is the validation against the state)
+				h.liveFinding("v0-invalid-block-with-valid-commit-saved", fmt.Sprintf("the syncing node wrote block meta for height %d with block id hash %X: a block whose header contradicts the node's state (its commit by the prescribed validator set verifies) was saved without having passed full validation", height, pbm.BlockID.Hash))
+			} else {
+				h.liveFinding("v0-noncanonical-block-saved", fmt.Sprintf("the syncing node wrote block meta for height %d with block id hash %X, which is not the canonical block of that height", height, pbm.BlockID.Hash))
+			}
 		}
 	}
 	n.blockStore = store.NewBlockStore(bdb)
@@ -1118,6 +1123,13 @@ func (h *harness) evaluate(res *Result) {
 	short := v0 && !sc.Timeouts && res.ElapsedMs < 25000
 	if handed {
 		H := handState.LastBlockHeight
+		// O9: WAL catch-up is asked for exactly when the sync stored no block (the node was not state-synced)
+		switch {
+		case res.Synced == 0 && res.SkipWAL:
+			add("v0-handover-skips-wal-with-no-block-synced", "hand-over at height %d with skipWAL=true although block sync stored no block (the node started at %d): consensus will not replay its WAL for the unfinished height", H, sc.NodeStart)
+		case res.Synced > 0 && !res.SkipWAL:
+			add("v0-handover-replays-wal-after-sync", "hand-over at height %d with skipWAL=false although block sync stored %d blocks", H, res.Synced)
+		}
 		// O5: the state handed to consensus is the canonical state after H
 		if H != res.StoreHeight {
 			add("v0-handover-state-height-differs-from-store", "state at height %d handed over, block store at %d", H, res.StoreHeight)
